@@ -210,6 +210,10 @@ func execC15(spec *RunSpec) *Result {
 		seenMtime int64
 		loaded    map[int]bool // content versions read (by any path of that engine) while the cache kept seeing seenMtime
 		has       bool
+		// alt: states the cache may ALSO still be in. A render that failed may have ended before the layout chain
+		// consulted the cache for a layout (the default-layout probe and the layout path resolution Stat files
+		// without going through it), so after a failed render the earlier state of a layout stays possible.
+		alt []cacheView
 	}
 	// The harness engine holds two engines with separate template caches: the *Vue used by Vue.Render and the
 	// one inside the base Template (Load.Render, RenderFile, layout chain). The view is kept per cache.
@@ -259,10 +263,12 @@ func execC15(spec *RunSpec) *Result {
 				if fv.Deleted || cv == nil || !cv.has {
 					continue
 				}
-				if fv.MtimeNs == cv.seenMtime {
-					for u := range cv.loaded {
-						if u != v {
-							amb[name] = append(amb[name], u)
+				for _, st := range append([]cacheView{*cv}, cv.alt...) {
+					if fv.MtimeNs == st.seenMtime {
+						for u := range st.loaded {
+							if u != v {
+								amb[name] = append(amb[name], u)
+							}
 						}
 					}
 				}
@@ -291,9 +297,19 @@ func execC15(spec *RunSpec) *Result {
 							m := spec.Files[fileIdx[name]].Versions[v].MtimeNs
 							if !view[name].has || view[name].seenMtime != m {
 								// the cache sees another mtime than before: whatever it held is out of date for it
+								var keep []cacheView
+								if out.IsErr && name != op.File && view[name].has {
+									// ... unless this render failed and the file is a layout: see cacheView.alt
+									old := *view[name]
+									old.alt = nil
+									keep = append(view[name].alt, old)
+								}
 								view[name].seenMtime = m
 								view[name].loaded = map[int]bool{}
 								view[name].has = true
+								view[name].alt = keep
+							} else if !out.IsErr {
+								view[name].alt = nil // a successful render went through the cache for this file
 							}
 							if sfs.Reads(i, name) > 0 {
 								view[name].loaded[v] = true
